@@ -704,4 +704,44 @@ example : C15.normAxis 2 2 ≥ (2 : Nat) ∧ C15.normAxis 2 (-3) < 0 := by decid
 example : C15.detArr ⟨[1, 2, 3, 4, 5, 6], [2, 3]⟩ = .err .MustBeEqual ∧ C14.matmul ⟨[1, 2, 3, 4, 5, 6], [2, 3]⟩ ⟨[1, 2, 3, 4, 5, 6], [2, 3]⟩ = .err .ParameterError := by decide
 example : resultImpls.length = 205 ∧ (traitMethods.filter (·.fallible)).length = 253 ∧ optionParsers.length = 5 := by decide +kernel
 
+/-! ## (f) the validators as REGENERATED FROM THE RUST SOURCE on every run
+`tools/rs2lean.py` translates `src/validators/{axis,dimension,shape}.rs` construct by construct into `ArrModel/Gen/Core.lean`;
+these theorems are about those generated definitions (equivalences with the hand model: `ArrProofs/Lemmas/GenCore.lean`), so a
+change of the Rust validators changes the statement that has to be proved here. -/
+
+open ArrModel.Gen.Core in
+/-- `axis_in_bounds` / `axis_opt_in_bounds` (validators/axis.rs): Ok exactly for an axis inside the rank (or no axis), the error
+value `AxisOutOfBounds` exactly otherwise, never a panic - for every array and every axis value -/
+theorem gen_axis_validators {α : Type} (a : Arr α) (ax : Nat) (o : Option Nat) :
+    (Array_axis_in_bounds a ax = .ok () ↔ ax < a.ndim) ∧ (Array_axis_in_bounds a ax = .err .AxisOutOfBounds ↔ a.ndim ≤ ax) ∧
+    Array_axis_in_bounds a ax ≠ .panic ∧
+    (Array_axis_opt_in_bounds a o = .ok () ↔ ∀ x, o = some x → x < a.ndim) ∧
+    (Array_axis_opt_in_bounds a o = .err .AxisOutOfBounds ↔ ∃ x, o = some x ∧ a.ndim ≤ x) ∧
+    Array_axis_opt_in_bounds a o ≠ .panic :=
+  ⟨c09_gen_axis_in_bounds_ok_iff a ax, c09_gen_axis_in_bounds_err_iff a ax, c09_gen_axis_in_bounds_never_panics a ax,
+   c09_gen_axis_opt_in_bounds_ok_iff a o, c09_gen_axis_opt_in_bounds_err_iff a o, c09_gen_axis_opt_in_bounds_never_panics a o⟩
+
+open ArrModel.Gen.Core in
+/-- `is_dim_supported` / `is_dim_unsupported` (validators/dimension.rs, `Array<T>` and `usize` impls): an unsupported rank is the
+error value `UnsupportedDimension`, a supported one is Ok, never a panic -/
+theorem gen_dimension_validators {α : Type} (a : Arr α) (l : List Nat) (n : Nat) :
+    (Array_is_dim_supported a l = .ok () ↔ a.ndim ∈ l) ∧ (Array_is_dim_supported a l = .err .UnsupportedDimension ↔ a.ndim ∉ l) ∧
+    (Array_is_dim_unsupported a l = .ok () ↔ a.ndim ∉ l) ∧ (Array_is_dim_unsupported a l = .err .UnsupportedDimension ↔ a.ndim ∈ l) ∧
+    Array_is_dim_supported a l ≠ .panic ∧ Array_is_dim_unsupported a l ≠ .panic ∧
+    usize_is_dim_supported n l ≠ .panic ∧ usize_is_dim_unsupported n l ≠ .panic :=
+  ⟨c09_gen_is_dim_supported_ok_iff a l, c09_gen_is_dim_supported_err_iff a l, c09_gen_is_dim_unsupported_ok_iff a l,
+   c09_gen_is_dim_unsupported_err_iff a l, (c09_gen_is_dim_never_panics a l).1, (c09_gen_is_dim_never_panics a l).2,
+   (c09_gen_usize_is_dim_never_panics n l).1, (c09_gen_usize_is_dim_never_panics n l).2⟩
+
+open ArrModel.Gen.Core in
+/-- the shape validators (validators/shape.rs) answer with a value for every input; `new` - the funnel of every constructor -
+refuses a non-fitting element list with the error value and never panics -/
+theorem gen_shape_validators_total {α β : Type} (s t : List Nat) (e : List β) (es : List α) :
+    Vec_is_broadcastable s t ≠ .panic ∧ Vec_matches_values_len s e ≠ .panic ∧ Vec_matches_shape s t ≠ .panic ∧
+    Array_new es s ≠ .panic ∧ (s.prod ≠ es.length → Array_new es s = .err .ShapeMustMatchValuesLength) :=
+  ⟨(c09_gen_shape_validators_never_panic s t e).1, (c09_gen_shape_validators_never_panic s t e).2.1,
+   (c09_gen_shape_validators_never_panic s t e).2.2, c01_gen_new_never_panics es s, c01_gen_new_err es s⟩
+
+example : ArrModel.Gen.Core.Array_axis_in_bounds sample 3 = .err .AxisOutOfBounds ∧ ArrModel.Gen.Core.Array_axis_in_bounds sample 2 = .ok () := by decide
+
 end ArrModel.C09
